@@ -88,6 +88,8 @@ pub struct FnSpec {
     pub attrs: Vec<String>,
     // filled in by the extractor
     pub kill_arms: BTreeSet<usize>,
+    /// emit signature + contract only, with an `external_body` (the callers' view of a case-split fn)
+    pub stub: bool,
     pub closure_spans: Vec<(usize, (usize, usize))>,
     pub pin_idents: BTreeSet<String>,
     pub ref_params: BTreeSet<String>,
